@@ -618,6 +618,9 @@ class ABCTune(object):
                 'Colon-only repeats must be divisible by 2: {}'.format(
                     match.group(1)))
           backward_repeats = forward_repeats = int((colon_count / 2) + 1)
+          # '::' is short for ':||:', i.e. also a bar line: clear the bar-wise
+          # accidentals.
+          self._bar_accidentals.clear()
         elif match.re == ABCTune.BAR_AND_REPEAT_SYMBOLS_PATTERN:
           # We're in a new bar, so clear the bar-wise accidentals.
           self._bar_accidentals.clear()
